@@ -190,6 +190,112 @@ def recv_case(own, peer_ann, ident_len):
             dict(own=own, peer_announced=peer_ann, incoming_pdu_length=sent_len[0], delivered=delivered, error=err))
 
 
+def _read_pdu(conn):
+    import struct
+    head = b''
+    while len(head) < 6:
+        chunk = conn.recv(6 - len(head))
+        if not chunk:
+            return None
+        head += chunk
+    n = struct.unpack('>I', head[2:6])[0]
+    body = b''
+    while len(body) < n:
+        chunk = conn.recv(n - len(body))
+        if not chunk:
+            return None
+        body += chunk
+    return head + body
+
+
+def entity_class_cases():
+    """Every public entity class must hand its configured maximum on: the serving classes (AE, StorageAE) announce it or
+    less in their A-ASSOCIATE-AC, every class that requests (ClientAE, ClientStorageAE, AE, StorageAE - the latter two for
+    their C-MOVE / N-ACTION sub-associations) announces it in its A-ASSOCIATE-RQ.  Raw sockets on the other side."""
+    import shutil
+    import socket
+    import tempfile
+    import threading
+    import pynetdicom2
+    import provider_driver as pd
+    from pynetdicom2 import applicationentity as aemod, pdu, userdataitems, sopclass
+    tmp = tempfile.mkdtemp(prefix='c10-', dir=common.BUILD)
+    out = []
+
+    def maxlen_of(p):
+        for sub in p.variable_items[-1].user_data:
+            if isinstance(sub, userdataitems.MaximumLengthSubItem):
+                return sub.maximum_length_received
+        return None
+    try:
+        for own in (4096, 100000):
+            makers = [('AE', lambda: aemod.AE('SRV', 0, max_pdu_length=own)),
+                      ('StorageAE', lambda: pynetdicom2.StorageAE(tmp, 'SRV', 0, max_pdu_length=own)),
+                      ('ClientAE', lambda: aemod.ClientAE('CLI', max_pdu_length=own)),
+                      ('ClientStorageAE', lambda: pynetdicom2.ClientStorageAE(tmp, 'CLI', max_pdu_length=own))]
+            for name, make in makers[:2]:
+                ann, err = None, None
+                try:
+                    ae = make().add_scp(sopclass.verification_scp)
+                    t = threading.Thread(target=ae.serve_forever)
+                    t.daemon = True
+                    t.start()
+                    try:
+                        conn = socket.create_connection(('127.0.0.1', ae.server_address[1]), 5)
+                        conn.settimeout(5)
+                        conn.sendall(pd.mk_rq(max_len=1000000).encode())
+                        ann = maxlen_of(pdu.AAssociateAcPDU.decode(_read_pdu(conn)))
+                        conn.sendall(pdu.AAbortPDU(0, 0).encode())
+                        conn.close()
+                    finally:
+                        ae.shutdown()
+                        ae.server_close()
+                except Exception as e:  # noqa
+                    err = repr(e)
+                out.append(dict(entity=name, role='acceptor', configured=own, peer_announced=1000000, announced=ann,
+                                error=err, ok=bool(err is None and ann is not None and 0 < ann <= own)))
+            for name, make in makers:
+                ann, err = [None], None
+                srv = socket.socket()
+                srv.bind(('127.0.0.1', 0))
+                srv.listen(1)
+
+                def peer():
+                    try:
+                        conn, _a = srv.accept()
+                        conn.settimeout(5)
+                        ann[0] = maxlen_of(pdu.AAssociateRqPDU.decode(_read_pdu(conn)))
+                        conn.sendall(pdu.AAssociateRjPDU(1, 1, 1).encode())
+                        _read_pdu(conn)
+                        conn.close()
+                    except Exception:  # noqa
+                        pass
+                t = threading.Thread(target=peer)
+                t.daemon = True
+                t.start()
+                ae = None
+                try:
+                    ae = make().add_scu(sopclass.verification_scu)
+                    ae.timeout = 5
+                    try:
+                        with ae.request_association(dict(address='127.0.0.1', port=srv.getsockname()[1], aet='PEER')):
+                            pass
+                    except Exception:  # noqa  (rejected, as scripted)
+                        pass
+                except Exception as e:  # noqa
+                    err = repr(e)
+                finally:
+                    if ae is not None and hasattr(ae, 'server_close'):
+                        ae.server_close()
+                t.join(5)
+                srv.close()
+                out.append(dict(entity=name, role='requestor', configured=own, announced=ann[0], error=err,
+                                ok=bool(err is None and ann[0] == own)))
+    finally:
+        shutil.rmtree(tmp, ignore_errors=True)
+    return out
+
+
 def maxlen_position_cases():
     """A peer (another toolkit) whose user information does not list the Maximum Length sub-item FIRST - the standard
     fixes no order for the sub-items - or omits it: the acceptor (accept) and the requestor (_request) must still find
@@ -272,8 +378,9 @@ def main(tier, seed):
     failing, broken, n_obl, n_ok = common.run_sharded(run, 'Max', nd.IMPORTS, 'mcase', [t for t, _h in obs],
                                                       [('corr', 'max_corr'), ('spec', 'max_spec')], size=25)
     recv = [recv_case(own, ann, n) for own, ann, n in
-            ([(16384, 4096, 8000), (0, 4096, 30000), (0, 4096, 100000), (65536, 128, 2000)] if tier == 'quick' else
-             [(16384, 4096, 8000), (0, 4096, 30000), (0, 4096, 100000), (0, 0, 300000), (65536, 128, 2000), (8192, 7, 5000), (4096, 4096, 3000),
+            ([(16384, 4096, 8000), (0, 4096, 30000), (0, 4096, 100000), (0, 4096, 1500000), (65536, 128, 2000)] if tier == 'quick' else
+             [(16384, 4096, 8000), (0, 4096, 30000), (0, 4096, 100000), (0, 0, 300000), (0, 0, 3000000), (0, 4194304, 3000000),
+              (65536, 128, 2000), (8192, 7, 5000), (4096, 4096, 3000),
               (131072, 1024, 100000)])]
     f3, b3, n3, k3 = common.run_sharded(run, 'Recv', nd.IMPORTS, 'rvcase', [t for t, _h in recv],
                                         [('recv', 'recv_spec')], size=10)
@@ -286,6 +393,10 @@ def main(tier, seed):
             dec.report(dict(r, kind='peer-maximum-not-found'))
     for i in f3['recv']:
         dec.report(dict(recv[i][1], kind='announced-maximum-not-received'))
+    ents = entity_class_cases()
+    for r in ents:
+        if not r['ok']:
+            dec.report(dict(r, kind='configured-maximum-not-announced'))
     cov = dec.coverage
     cov['evaluations'] = len(obs)
     cov['distinct_nontrivial'] = len(set((h['own_r'], h['own_a']) for _t, h in obs))
@@ -297,6 +408,8 @@ def main(tier, seed):
     cov['distribution'] = dict(pairs_with_zero=sum(1 for _t, h in obs if 0 in (h['own_r'], h['own_a'])),
                                errors=sum(1 for _t, h in obs if h['error']))
     cov['samples'] = [h for _t, h in obs[11:13]]
+    cov['distribution']['entity_classes'] = ['%s/%s/%d announces %s' % (r['entity'], r['role'], r['configured'], r['announced'])
+                                             for r in ents]
     spec_set = set(failing['spec'])
     for i in failing['spec']:
         dec.report(dict(obs[i][1], kind='max-length-not-honoured'))
